@@ -14,6 +14,7 @@ fn line_json(l: &L) -> Value {
         L::E => json!("E"),
         L::Es => json!("Es"),
         L::S => json!("S"),
+        L::En => json!("En"),
     }
 }
 fn line_parse(v: &Value) -> Option<L> {
@@ -22,6 +23,7 @@ fn line_parse(v: &Value) -> Option<L> {
             "E" => Some(L::E),
             "Es" => Some(L::Es),
             "S" => Some(L::S),
+            "En" => Some(L::En),
             _ => None,
         };
     }
